@@ -571,6 +571,7 @@ func (r *run) awaitEnd() {
 	const step = 10 * time.Millisecond
 	idle, lastTicks, lastPicks := 0, int64(-1), uint64(0)
 	t0 := time.Now()
+	lastProgress := t0
 	for {
 		select {
 		case <-r.doneCh:
@@ -586,6 +587,9 @@ func (r *run) awaitEnd() {
 			idle++
 		} else {
 			idle = 0
+		}
+		if t != lastTicks || picks != lastPicks {
+			lastProgress = time.Now()
 		}
 		lastTicks, lastPicks = t, picks
 		if idle >= 30 {
@@ -625,7 +629,10 @@ func (r *run) awaitEnd() {
 				first.ch <- time.Time{}
 			}
 		}
-		if time.Since(t0) > 90*time.Second { // failsafe only
+		// failsafe only: no tick and no scheduling decision for two minutes of real time although
+		// somebody holds or wants the baton (a slow, allocating loop on a loaded machine still
+		// ticks), or half an hour in total
+		if time.Since(lastProgress) > 120*time.Second || time.Since(t0) > 30*time.Minute {
 			r.finish("stuck", -4)
 			return
 		}
